@@ -275,18 +275,36 @@ def check(ck):
     treq = [n for n in gr.live_nodes() for c in node_calls(n) if call_name(c) == "request" and isinstance(c.func, ast.Attribute)]
     if not treq:
         raise AnalysisError("anchor vanished: transport.request call in _run_request")
-    for rn in [n for n in gr.live_nodes() if n.kind == "return"]:
-        if q.returns_none_literal(rn):
-            guards = [gr.nodes[d] for d in dr[rn.id] if gr.nodes[d].kind == "branch"]
-            okk = False
-            for b in guards:
-                if isinstance(b.test, ast.Name) and b.polarity is False:
-                    t = prov.origin(gr, b, b.test)
-                    if t[0] == "call" and t[1][0] == "attr" and t[1][2] == "request":
-                        okk = True
+    # _run_request evaluated abstractly (E7) on reply texts with and without a JSON token, the transport and loads() stubbed: None only
+    # for a body made of blanks (it carries no reply, hence no error); any other body reaches loads() as received and what loads
+    # returns is returned - so an error reply, even to a notification, is seen by check_for_errors
+    for (txt_, flag_) in [(t_, f_) for t_ in ("", " ", "\n", "\r\n\t ", "null", "0", "false", "{}", "[]", ' {"error": {"code": 1}} ', "x", '""')
+                          for f_ in (False, True)]:          # (flag_: the value of every other parameter - `notify` - both ways)
+        calls_ = []
+
+        def _ld(*a, **k):
+            calls_.append((a, k))
+            return shape.Opaque("loaded")
+        tr_ = shape.Opaque("transport", {"request()": K(txt_)})
+        cfg_ = shape.Opaque("Config", {})
+
+        def _mk():
+            return shape.Obj("ServerProxy", {"_ServerProxy__history": K(None), "_ServerProxy__query_string": K(""), "_ServerProxy__handler": K("/"),
+                                             "_ServerProxy__host": K("h"), "_ServerProxy__verbose": K(0), "_ServerProxy__transport": tr_, "_config": cfg_})
+        ev_ = shape.Evaluator(prog, "jsonrpc", lenient=True, stubs={"jsonrpc.loads": _ld})
+        res_ = ev_.run(frun, dict((p_, K("req") if p_ == "request" else K(flag_)) for p_ in frun.params if p_ != "self"), _mk)
+        outs_ = [o for (_d, o) in res_]
+        if txt_.strip():
+            okk = len(outs_) == 1 and outs_[0][0] == "return" and isinstance(outs_[0][1], shape.Opaque) and outs_[0][1].label == "loaded" and \
+                len(calls_) == 1 and calls_[0][0] and isinstance(calls_[0][0][0], K) and calls_[0][0][0].v == txt_
             ck.require(okk, "C06.4", "%s: `return None`" % q.fn(frun), "None only for an empty reply body",
                        "_run_request can return None although the peer sent a reply body: an error reply (e.g. to a "
-                       "notification) is never seen by check_for_errors", q.loc(frun, rn))
+                       "notification) is never seen by check_for_errors (reply text %r gives %r, loads called with %r)"
+                       % (txt_, [o[:2] for o in outs_], [c_[0][:1] for c_ in calls_]), q.loc(frun, frun.node))
+        elif txt_ == "":
+            okk = len(outs_) == 1 and outs_[0][0] == "return" and isinstance(outs_[0][1], K) and outs_[0][1].v is None and not calls_
+            ck.require(okk, "C06.4", "%s: empty reply body" % q.fn(frun), "None, nothing parsed",
+                       "for an empty reply body _run_request gives %r" % ([o[:2] for o in outs_],), q.loc(frun, frun.node))
     ck.floor("C06.4", 5)
 
     # ---- C06.6 replies are decoded with the proxy's own configuration (shared with C08.2) ---------------------------------
